@@ -229,6 +229,7 @@ def dataset(draw, max_inputs=4, min_inputs=1, clim="maybe", flavor="det", core_m
         for d in inputs[1:]:
             if d["obs"] is not None and draw(st.sampled_from([False, False, True])):
                 d["obs"] = [[[None if v is None else draw(val()) for v in row] for row in pl] for pl in d["obs"]]
+                d["own_obs"] = True
     spec = {"times": times, "leadtimes": [float(l) for l in leads], "locs": locs,
             "var": {"name": "Temp", "units": "K", "x0": None, "x1": None},
             "inputs": inputs, "clim": None}
